@@ -91,6 +91,15 @@ impl Pres {
 			rng: RefCell::new(Rng::new(0)),
 		}
 	}
+	/// canonical except for the order in which record fields are presented (and whether null fields are left out):
+	/// what changes which of the serializer's buffering paths a record goes through, not what is written
+	pub fn canonical_reordered(rng: &mut Rng) -> Pres {
+		let mut p = Pres::canonical();
+		p.field_order = *rng.pick(&[FieldOrder::Schema, FieldOrder::Reversed, FieldOrder::Shuffled]);
+		p.record_as = *rng.pick(&[RecordAs::Struct, RecordAs::Struct, RecordAs::Map]);
+		p.rng = RefCell::new(rng.fork());
+		p
+	}
 	pub fn random(rng: &mut Rng) -> Pres {
 		Pres {
 			union_sel: *rng.pick(&[UnionSel::ByName, UnionSel::ByName, UnionSel::ByTypeWhenUnambiguous, UnionSel::ByExactType]),
